@@ -642,3 +642,13 @@ def m_splice(eng, m, args, dest_ts, st, where):
         eng.fact(z3.ULE(newlen, n))
     eng.write_ref(st, r, lambda old: Vc(v.ty, newlen, slots, n))
     return Opq('Splice')
+
+
+@model('Ord::clamp on integers', r'^<(u8|u16|u32|u64|usize|i8|i16|i32|i64|isize) as Ord>::clamp$')
+def m_clamp(eng, m, args, dest_ts, st, where):
+    # fn clamp(self, min, max): assert!(min <= max); if self < min { min } else if self > max { max } else { self }
+    t = INTS[m.group(1)]
+    x, lo, hi = [deref(eng, st, a).t for a in args[:3]]
+    lt = (lambda a, b: a < b) if t.signed else z3.ULT
+    eng.panic('assert', where + ': clamp requires min <= max', AND(st.pc, lt(hi, lo)))
+    return Sc(z3.If(lt(x, lo), lo, z3.If(lt(hi, x), hi, x)))
